@@ -190,6 +190,9 @@ func runOne(n int, g Graph, strat vsched.Strategy, budget int) ([]Event, vsched.
 }
 
 // ---- trace collection with de-duplication ----
+// runs that ended "stalled" (the scheduler gave up: an actor blocked in a primitive the shims do not model)
+var stalledRuns int64
+
 type collector struct {
 	mu    sync.Mutex
 	seen  map[string]*TraceRec
@@ -198,6 +201,10 @@ type collector struct {
 }
 
 func (c *collector) add(mode string, n int, g Graph, evs []Event, out vsched.Outcome) {
+	if out.Status == "stalled" { // harness limit (vsched.Stalled), not an observation
+		atomic.AddInt64(&stalledRuns, 1)
+		return
+	}
 	var sb strings.Builder
 	fmt.Fprintf(&sb, "%d|", n)
 	for _, e := range evs {
@@ -388,6 +395,10 @@ func main() {
 	}
 	w.Close()
 	res.Count("runs", int64(col.runs))
+	res.Count("stalled_runs", int64(stalledRuns))
+	if vsched.Stalled() {
+		res.Extra["controlled_execution"] = "given up: an actor blocked in a primitive the shims do not model (channel, unredirected lock)"
+	}
 	res.Count("distinct_traces", int64(len(col.order)))
 	res.Write(*out)
 }
